@@ -8,6 +8,8 @@ import (
 	"time"
 )
 
+var errHeadersNotSupported = errors.New("kafka: the broker only supports message format 1, which cannot carry record headers")
+
 func readMessage(b *pageBuffer, d *decoder) (magicByte, attributes int8, baseOffset, timestamp int64, key, value Bytes, err error) {
 	md := decoder{
 		reader: d,
@@ -209,6 +211,12 @@ func (rs *RecordSet) writeToVersion1(buffer *pageBuffer, bufferOffset int64) err
 	currentTimestamp := timestamp(time.Now())
 
 	return forEachRecord(records, func(i int, r *Record) error {
+		if len(r.Headers) != 0 {
+			// message format 1 has no place for record headers: refuse
+			// instead of dropping them silently
+			return errHeadersNotSupported
+		}
+
 		t := timestamp(r.Time)
 		if t == 0 {
 			t = currentTimestamp
